@@ -2,8 +2,11 @@
 """Regenerates the generated section of DESIGN.md (between the GENERATED markers): seeded changes and mutants."""
 import json, glob, os, re, collections
 rows=[]
+rejected=[]
 for d in sorted(glob.glob('/verif/seeded/*/meta.json')):
     m=json.load(open(d)); name=os.path.basename(os.path.dirname(d))
+    if 'rejected' in m.get('status',''):
+        rejected.append((name, m['property'], m['what'], m['why_rejected'])); continue
     rows.append((name,m['property'],m['needs_to_manifest'],m['check_result']))
 out=[]
 out.append("## 7d. Which checks catch which changes\n")
@@ -15,6 +18,8 @@ for n,p,needs,res in rows:
     out.append("| %s | %s | %s | %s |" % (n,p,needs.replace('|','\\|'),res.replace('|','\\|')))
 out.append("")
 out.append("One further seeded change was rejected: C16-2 (one argument slice per script function value instead of per call) makes the repository's own `TestGoFunctionConcurrency` fail in 4 of 5 runs, so it does not \"pass the existing tests\"; C16's lock-granularity `shared-func` programs, added because of it, do detect it.\n")
+for n,p,what,why in rejected:
+    out.append("Rejected: %s (%s) - %s.  %s\n" % (n,p,what,why))
 out.append("### Mutants written while building the checkers (`/verif/mutants/<ID>/*.diff`, run with `selftest.sh`)\n")
 res=collections.defaultdict(list)
 for l in open('/verif/mutants/RESULTS.txt'):
